@@ -314,6 +314,8 @@ def run_c10(o, ctx, tier, seed, replay=None):
     else:
         cases = c10_cases(seed, t)
     # half of the cases run on a thread that has just served a connection of a server with a LARGER head limit
+    if replay is None:
+        c10_modes(o, ctx, t, seed)
     lines = ["CONN max=%d%s script=%s,r,e" % (N, " warm=%d" % (4096 if N < 4096 else 65536) if k % 2 else "", ",".join("s:" + hx(s_) for s_ in segs)) for k, (N, segs, _, _) in enumerate(cases)]
     mlines = ["RDREQ max=%d segs=%s close=0" % (N, ",".join(hx(s_) for s_ in segs)) for N, segs, _, _ in cases]
     impl = C.run_sharded(ctx["kimpl"], lines, shards=min(C.NCPU, 16))
@@ -347,6 +349,36 @@ def run_c10(o, ctx, tier, seed, replay=None):
             if verdict != mverdict or (int(md.get("maxrecv", "0")) != int(d.get("maxrecv", "0")) and verdict != "ok"):
                 if len(o.mismatches) < 20:
                     o.mismatches.append({"case": c, "impl": a[:200], "model": m})
+
+
+def c10_modes(o, ctx, t, seed):
+    """the configured limit is enforced by whichever code path reads the head: the three serve modes with non-default limits
+    (below and above the default), heads of N-1, N (accepted) and N+1, N+300 (431 + close) bytes, whole and cut at N"""
+    r = rng_for(seed, "c10-modes")
+    lines, wants = [], []
+    for N in ([256, 6000] if t == "quick" else [64, 256, 1000, 4095, 4097, 6000, 9001]):
+        for L in (N - 1, N, N + 1, N + 300):
+            base = b"GET /p/1/2 HTTP/1.1\r\nx-pad: "
+            tail = b"\r\n\r\n"
+            if L < len(base) + len(tail) + 1:
+                continue
+            head = base + b"a" * (L - len(base) - len(tail)) + tail
+            want = ("R200:0:" + hx(b"1,2") + ",EOF") if L <= N else "R431:1:e,EOF"
+            for mode in ("serve", "threaded", "epoll"):
+                cut = r.choice([0, min(N, len(head) - 1)])
+                segs = [head] if cut == 0 else [head[:cut], head[cut:]]
+                script = ",".join("s:" + hx(x) for x in segs) + (",r,c,e" if L <= N else ",r,e")
+                lines.append("SERVE mode=%s threads=2 maxhead=%d plan=P:%s/S:e" % (mode, N, script))
+                wants.append((want, N, L, mode))
+    impl = C.run_sharded(ctx["kimpl"], lines, shards=min(C.NCPU, 12))
+    for c, a, (want, N, L, mode) in zip(lines, impl, wants):
+        o.evaluations += 1
+        o.count("mode=%s,head-max=%+d" % (mode, L - N))
+        pz = a.split()
+        got = pz[1].split("/")[0] if len(pz) >= 2 and pz[0] == "V" else None
+        if got != want and len(o.violations) < 30:
+            o.violations.append({"case": c, "impl": a[:300], "expected": want,
+                                 "why": "mode %s, limit N=%d, head of %d bytes: got %s, expected %s" % (mode, N, L, (got or a[:40])[:60], want[:60])})
 
 
 register("C10", lean=["Khttp.Props.C10"], run=run_c10,
@@ -447,6 +479,13 @@ def c05_cases(seed, tier):
                     script = first + "".join(",s:%s" % hx(p_) for p_ in pieces[1:] if p_) + ",r,s:%s,r" % hx(probe)
                     exp2 = [("R200:0:" + hx(ans)) if ans is not None else "R404:0:e", "R200:0:" + hx(b"1,2")]
                     out.append(("CONN max=4096 script=" + script, exp2, fr[0] + "-unread", fields))
+                # invalid framing is rejected BEFORE any user code runs: also when a pre-routing hook would answer the request itself
+                # (Drop, with or without closing) the answer is 400 + close and nothing after the head is interpreted
+                if fr[0] == "invalid" and (tier != "quick" or r.random() < 0.5):
+                    hk = r.choice([b"drop", b"drop", b"dropclose"])
+                    head4 = head.replace(b"\r\n", b"\r\nx-hook: " + hk + b"\r\n", 1)
+                    script = ("s:%s,r,s:%s,r" % (hx(head4 + body), hx(probe))) if r.random() < 0.5 else ("s:%s,s:%s,r,s:%s,r" % (hx(head4), hx(body), hx(probe)))
+                    out.append(("CONN max=4096 script=" + script, ["R400:1:e", "EOF"], "invalid-hook" + hk.decode(), fields))
                 # … and when a pre-routing hook answers in the handler's place (Drop): the body the framing denotes is still skipped
                 if fr[0] in ("chunked", "fixed") and len(body) >= 2 and (tier != "quick" or r.random() < 0.5):
                     head3 = head.replace(b"\r\n", b"\r\nx-hook: drop\r\n", 1)
